@@ -33,6 +33,7 @@ import (
 	"net/http"
 	"net/http/httptest"
 	"sort"
+	"sync"
 	"strconv"
 	"strings"
 	"time"
@@ -198,6 +199,7 @@ type jCase struct {
 	XP       [][2]B `json:"xp"`     // C10: requests with Host = [0] arriving on a TLS connection whose SNI was [1]
 	Via      int    `json:"via"`    // 0: events call syncUpstreamCluster directly; 1: through the real event handler + queue
 	Mid      bool   `json:"mid"`    // C10: probe all hosts after every single manager mutation of a delivery
+	Burst    []jObj `json:"burst"`  // C10: these objects are stored and enqueued AT ONCE while the real Run() is running
 }
 
 var gateNames = []string{"CloseConnectionWhenIdle", "DenyAllRequests", "GlobalRateLimiter", "Tracing", "NoSuchGate"}
@@ -683,10 +685,107 @@ type histObs struct {
 	Latest   []B       `json:"latest"`    // names in the store at the end, in fresh delivery order
 }
 
+// burstObs: what happened when several events were in the queue at once under the REAL Run()
+type burstObs struct {
+	MaxC    int       `json:"maxc"`    // largest number of sync handler executions in progress at the same time
+	Order   []B       `json:"order"`   // names in the order the handler executions started
+	Res     []string  `json:"res"`     // their results, same order
+	Handled int       `json:"handled"` // executions that finished
+	Hosts   []hostObs `json:"hosts"`   // resolution probes afterwards
+}
+
+// runBurst starts the real controller's Run (real constructor, real queue, real worker start), stores all objects,
+// hands all their add events to the real event handler at once, and holds the first sync handler execution at a
+// gate for up to 300 ms to see whether a second one starts meanwhile.  A late second start can only make this
+// observation miss concurrency, never invent it.
+func runBurst(c jCase) interface{} {
+	g := newGateway()
+	var mu sync.Mutex
+	inProg, maxC, handled := 0, 0, 0
+	order := []B{}
+	results := map[int]string{}
+	gate := make(chan struct{})
+	g.queue.VerifWrapHandler(func(h syncqueue.SyncHandler) syncqueue.SyncHandler {
+		return func(obj interface{}) (syncqueue.Result, error) {
+			mu.Lock()
+			inProg++
+			if inProg > maxC {
+				maxC = inProg
+			}
+			idx := len(order)
+			name := ""
+			if uc, ok := obj.(*proxyv1alpha1.UpstreamCluster); ok {
+				name = uc.Name
+			}
+			order = append(order, toB(name))
+			mu.Unlock()
+			<-gate
+			res, err := h(obj)
+			mu.Lock()
+			results[idx] = resString(res, err)
+			inProg--
+			handled++
+			mu.Unlock()
+			return res, err
+		}
+	})
+	objs := []*proxyv1alpha1.UpstreamCluster{}
+	for i := range c.Burst {
+		o := buildObj(&c.Burst[i])
+		objs = append(objs, o)
+		must(g.indexer.Add(o))
+	}
+	stopCh := make(chan struct{})
+	done := make(chan struct{})
+	go func() { g.ctl.Run(stopCh); close(done) }()
+	for _, o := range objs {
+		g.handler.OnAdd(o)
+	}
+	deadline := time.Now().Add(300 * time.Millisecond)
+	for time.Now().Before(deadline) {
+		mu.Lock()
+		m := maxC
+		mu.Unlock()
+		if m >= 2 {
+			break
+		}
+		time.Sleep(2 * time.Millisecond)
+	}
+	close(gate)
+	finish := time.Now().Add(10 * time.Second)
+	for time.Now().Before(finish) {
+		mu.Lock()
+		n := handled
+		mu.Unlock()
+		if n >= len(objs) {
+			break
+		}
+		time.Sleep(2 * time.Millisecond)
+	}
+	close(stopCh) // Run shuts the queue down itself
+	<-done
+	out := burstObs{Order: order, Res: []string{}, Hosts: []hostObs{}}
+	mu.Lock()
+	out.MaxC, out.Handled = maxC, handled
+	for i := range order {
+		out.Res = append(out.Res, results[i])
+	}
+	mu.Unlock()
+	for _, h := range c.Hosts {
+		out.Hosts = append(out.Hosts, g.resolve(h.S()))
+	}
+	g.midOn = false
+	g.ctl.DeleteAll()
+	return out
+}
+
 func runHistory(raw json.RawMessage) interface{} {
 	var c jCase
 	must(json.Unmarshal(raw, &c))
 	initMaterial()
+	if len(c.Burst) > 0 {
+		return runBurst(c)
+	}
 	g := newGateway()
 	defer g.stop()
 	out := histObs{Steps: []stepObs{}, Hot: []viewObs{}, Fresh: []viewObs{}, FreshRes: []string{}, Latest: []B{}}
